@@ -349,6 +349,13 @@ def run(tier):
     res = {}
     for o in outs:
         res.update(o)
+    # a case that did not answer in time is re-run alone (nothing else competing for the cores) with twice the allowance before it counts
+    late = [c for c in cases if res[c["id"]].get("timeout") or res[c["id"]].get("crashed")]
+    if late:
+        again = run_cases(late, 2 * K * TIMEOUT)
+        for cid, o in again.items():
+            o["retried"] = True
+            res[cid] = o
     recs, order = [], []
     from .c02 import pyval
     for c in cases:
